@@ -87,3 +87,64 @@ impl EncItem for DE3<'_> {
         }
     }
 }
+
+
+// ---------------------------------------------------------------------------------------------
+// derived Bundle structs (bundle kinds 10..15 of the script format): macros/src/bundle.rs
+use crate::comps::TupleB;
+use hecs::Bundle;
+
+macro_rules! derived_bundle {
+    ($name:ident { $($f:ident : $t:ident),* }) => {
+        #[derive(Bundle)]
+        pub struct $name { $(pub $f: $t),* }
+        impl TupleB for $name {
+            fn from_vals(v: &[u64]) -> Self {
+                let mut i = 0usize;
+                #[allow(unused_assignments)]
+                let r = $name { $($f: { let x = <$t as Comp>::new(v[i]); i += 1; x }),* };
+                r
+            }
+            fn into_vals(self) -> Vec<(u64, u64)> {
+                vec![$((<$t as Comp>::T, self.$f.val())),*]
+            }
+        }
+    };
+}
+derived_bundle!(DB0 { a: C1, b: C2 });
+derived_bundle!(DB1 { b: C2, a: C1 });
+derived_bundle!(DB2 { x: C0, y: C4, z: C3 });
+derived_bundle!(DB3 { z: C6, y: C5, x: C7, w: C1 });
+derived_bundle!(DB4 { only: C3 });
+derived_bundle!(DB5 { first: C1, second: C1 });
+
+/// field types of the derived bundle struct of a kind
+pub fn derived_types(kind: u64) -> Option<&'static [u64]> {
+    Some(match kind {
+        10 => &[1, 2],
+        11 => &[2, 1],
+        12 => &[0, 4, 3],
+        13 => &[6, 5, 7, 1],
+        14 => &[3],
+        15 => &[1, 1],
+        _ => return None,
+    })
+}
+
+/// static bundles by kind: 0 = tuple (catalogue), 10.. = derived struct
+pub fn dispatch_bundle<V: crate::comps::TupleVisitor>(kind: u64, types: &[u64], v: V) -> Option<V::Out> {
+    if kind == 0 {
+        return crate::gen_tuples::dispatch_tuple(types, v);
+    }
+    if derived_types(kind) != Some(types) {
+        return None;
+    }
+    Some(match kind {
+        10 => v.visit::<DB0>(),
+        11 => v.visit::<DB1>(),
+        12 => v.visit::<DB2>(),
+        13 => v.visit::<DB3>(),
+        14 => v.visit::<DB4>(),
+        _ => v.visit::<DB5>(),
+    })
+}
